@@ -18,6 +18,12 @@
 (* BytesIO operators of the reference: the returned bytes must be exactly  *)
 (* the cells mem[m].data[pos+1 .. pos'], the position must be the model's. *)
 (* In the domain (D4) the specification predicts no exception at all.      *)
+(* API variants (next(), readlines(None), seek(off), keyword arguments)    *)
+(* are logged under the abstract call they stand for.  readlines(h >= 1)   *)
+(* may return any number of complete lines that reaches the hint or the    *)
+(* end; list(member) must return every line unless the constant            *)
+(* IterSingleLine enables the known deviation (harness decides from        *)
+(* known_findings.json).  Names are logged as code-point hex strings.      *)
 (* Batched: <<"ACCEPTED", tid>> is printed for every trace explained       *)
 (* completely, <<"AT", tid, l>> per explained event when TRACE_DIAG = "1". *)
 (***************************************************************************)
@@ -55,6 +61,8 @@ TCall(e) == /\ e.m \in 1..Len(mem)
                \/ e.op = "readline"  /\ AReadLine(e.m)
                \/ e.op = "readlinen" /\ AReadLineN(e.m, e.args[1])
                \/ e.op = "readlines" /\ AReadLines(e.m)
+               \/ e.op = "readlinesh" /\ AReadLinesHint(e.m, e.args[1], Len(e.ret))   \* readlines(h), h >= 1
+               \/ e.op = "iter"      /\ AIter(e.m, Len(e.ret))                        \* list(member)
                \/ e.op = "seek"      /\ ASeek(e.m, e.args[1], e.args[2])
                \/ e.op = "tell"      /\ ATell(e.m)
             /\ e.exc = ""
